@@ -106,6 +106,23 @@ Record function := {
   fn_pre : option gmanip; fn_post : option gmanip;
 }.
 
+(** findErrorAssignment: left-hand side of the first assignment whose source also yields an error *)
+Fixpoint find_error_assignment (l : list assignment) : option node :=
+  let fix one (a : assignment) : option node :=
+    match a with
+    | ASimple lhs _ true => Some lhs
+    | ANest cs => (fix many (cs : list assignment) : option node :=
+                     match cs with
+                     | [] => None
+                     | c :: cs' => match one c with Some x => Some x | None => many cs' end
+                     end) cs
+    | _ => None
+    end in
+  match l with
+  | [] => None
+  | a :: l' => match one a with Some x => Some x | None => find_error_assignment l' end
+  end.
+
 Section Builder.
   Variable d : dump.
   Let E := d_env d.
@@ -587,6 +604,11 @@ Section Builder.
                else
                  struct_to_struct o mpos fuel (NRoot (v_name dst_var) dst_t) (NRoot (v_name src_var) src_t) arg_nodes);
             let ret_error := me_ret_error d m in
+            doR _ <- (if ret_error then ret tt else
+                      match find_error_assignment assignments with
+                      | Some lhs => errorf (at_pos' mpos (s2b "the source of " ++ assign_expr lhs ++ s2b " returns an error but the method has no error result"))
+                      | None => ret tt
+                      end);
             doR pre <- build_manipulator (o_pre o) src_t dst_t arg_ts ret_error;
             doR post <- build_manipulator (o_post o) src_t dst_t arg_ts ret_error;
             ret {| fn_name := md_name (me_decl m); fn_comments := comments; fn_receiver := o_receiver o;
